@@ -424,7 +424,15 @@ def fx_obligations():
                   fn="gemclus.nonparametric._categorical_models.CategoricalModel._batchify"))
     # disguise_batch: nested closure inside add_mlcl_constraint
     src_node, fobj = fx.fn_ast(ML.add_mlcl_constraint)
-    target = [n for n in __import__("ast").walk(src_node) if isinstance(n, __import__("ast").FunctionDef) and n.name == "disguise_batch"]
+    # found by ROLE, not by name: the generator function nested in a decorator defined inside add_mlcl_constraint; `func` is that
+    # decorator's parameter (the wrapped _batchify), `disguise_batch` the generator itself
+    _ast = __import__("ast")
+    target, FUNC, SELFN = [], "func", "disguise_batch"
+    for outer in [n for n in src_node.body if isinstance(n, _ast.FunctionDef)]:
+        for n in outer.body:
+            if isinstance(n, _ast.FunctionDef) and any(isinstance(x, (_ast.Yield, _ast.YieldFrom)) for x in _ast.walk(n)) and outer.args.args:
+                target.append(n)
+                FUNC, SELFN = outer.args.args[0].arg, n.name
     fnq = "gemclus.mlcl.add_mlcl_constraint.decorate_batch.disguise_batch"
     if len(target) != 1:
         obs.append(Ob("mlcl.disguise_batch: found", REFUTED, "fx", "P", {}, fn=fnq))
@@ -434,9 +442,9 @@ def fx_obligations():
     st = fx.State()
     for a in node.args.args:
         st.env[a.arg] = ("var", a.arg)
-    st.env["func"] = ("var", "func")
-    st.env["disguise_batch"] = ("var", "disguise_batch")
-    it.frames = [(None, "disguise_batch")]
+    st.env[FUNC] = ("var", "func")
+    st.env[SELFN] = ("var", "disguise_batch")
+    it.frames = [(None, SELFN)]
     sts = it.exec_block(node.body, [st], fobj.__globals__, None, 0)
     ok = len(sts) == 1
     det = {}
